@@ -721,4 +721,99 @@ theorem opWrite_idx (P : SProto Q) (s : Sys Q) (es : List SEv) (req : Bytes) (tm
         exact ⟨by simp only; rw [tryAck_wait_idx P req _ _ hc2, h1.1], h1.2⟩
     all_goals (split <;> (try split) <;> exact h1)
 
+theorem tryRead_data (P : SProto Q) (hP : Laws P.toProto) (c c' : PConn Q) (d : Bytes) (h : tryRead P c = .done (.data d) c') :
+    d ∈ P.payloads c.q := by
+  unfold tryRead endOf at h
+  repeat' split at h
+  all_goals first
+    | (rename_i hq; injection h with h1 h2; injection h1 with h1; subst h1; exact hP.data_sound _ _ _ hq)
+    | (injection h with h1 h2; cases h1)
+    | (injection h with h1 h2; split at h1 <;> cases h1)
+    | cases h
+
+/-- data a read returns is the payload of a message completely received on the connection held: it lies in the queue
+    that connection has after some of the peer's events (deliveries on it) that followed the start of the read -/
+theorem opRead_data (P : SProto Q) (hP : Laws P.toProto) (s : Sys Q) (es : List SEv) (tmo : Option Nat) (d : Bytes)
+    (h : (opRead P s es tmo).1 = .data d) :
+    ∃ pes : List PEv, d ∈ P.payloads (pes.foldl (connPeer P) s.conn).q := by
+  unfold opRead at h
+  split at h
+  · rename_i r c hc
+    simp only at h
+    subst h
+    exact ⟨[], tryRead_data P hP _ _ _ hc⟩
+  · obtain ⟨⟨pes, hpes⟩, _⟩ := await_conn P (readReady P) (tmo.map (s.now + ·)) s es
+    generalize await P (readReady P) _ s es = r at h hpes
+    obtain ⟨w, s1, es1⟩ := r
+    simp only at hpes
+    cases w <;> simp only at h
+    · split at h
+      · rename_i r c hc
+        simp only at h
+        subst h
+        exact ⟨pes, by rw [← hpes]; exact tryRead_data P hP _ _ _ hc⟩
+      · cases h
+    · split at h <;> cases h
+    · cases h
+
+theorem opRead_idx (P : SProto Q) (s : Sys Q) (es : List SEv) (tmo : Option Nat) :
+    (opRead P s es tmo).2.1.conn.idx = s.conn.idx ∧ (opRead P s es tmo).2.1.nconn = s.nconn := by
+  unfold opRead
+  split
+  · rename_i r c hc
+    exact ⟨tryRead_idx P _ _ _ hc, rfl⟩
+  · have h1 := await_idx P (readReady P) (tmo.map (s.now + ·)) s es
+    generalize await P (readReady P) _ s es = r at h1
+    obtain ⟨w, s1, es1⟩ := r
+    simp only at h1
+    cases w <;> simp only
+    · split
+      · rename_i r2 c2 hc2
+        exact ⟨by simp only; rw [tryRead_idx P _ _ _ hc2, h1.1], h1.2⟩
+      · rename_i c2 hc2
+        exact ⟨by simp only; rw [tryRead_wait_idx P _ _ hc2, h1.1], h1.2⟩
+    · split
+      · rename_i c2 hc2
+        exact ⟨by simp only; rw [tryRead_wait_idx P _ _ hc2, h1.1], h1.2⟩
+      · exact h1
+    · exact h1
+
+theorem opRequest_idx (P : SProto Q) (s : Sys Q) (es : List SEv) (req : Bytes) (tmo : Option Nat) :
+    (opRequest P s es req tmo).2.1.conn.idx = s.conn.idx ∧ (opRequest P s es req tmo).2.1.nconn = s.nconn := by
+  have hw := opWrite_idx P s es req tmo
+  unfold opRequest
+  split
+  · rename_i s1 es1 heq
+    rw [heq] at hw
+    have hr := opRead_idx P s1 es1 tmo
+    exact ⟨by rw [hr.1, hw.1], by rw [hr.2, hw.2]⟩
+  · exact hw
+
+/-- the reply of the transport-level request was read on the connection the request was written to -/
+theorem opRequest_data (P : SProto Q) (hP : Laws P.toProto) (s : Sys Q) (es : List SEv) (req : Bytes) (tmo : Option Nat) (d : Bytes)
+    (h : (opRequest P s es req tmo).1 = .data d) :
+    ∃ (c : PConn Q) (pes : List PEv), c.idx = s.conn.idx ∧ d ∈ P.payloads (pes.foldl (connPeer P) c).q := by
+  have hw := opWrite_idx P s es req tmo
+  unfold opRequest at h
+  split at h
+  · rename_i s1 es1 heq
+    rw [heq] at hw
+    obtain ⟨pes, hp⟩ := opRead_data P hP s1 es1 tmo d h
+    exact ⟨s1.conn, pes, hw.1, hp⟩
+  · rename_i r hne
+    exfalso
+    unfold opWrite at h
+    simp only at h
+    split at h
+    · rename_i r2 c hc
+      rcases tryAck_res P req _ _ _ hc with rfl | rfl <;> cases h
+    · generalize await P (ackReady P req) _ _ es = ra at h
+      obtain ⟨w, s1, es1⟩ := ra
+      cases w <;> simp only at h
+      · split at h
+        · rename_i r2 c2 hc2
+          rcases tryAck_res P req _ _ _ hc2 with rfl | rfl <;> cases h
+        · cases h
+      all_goals (split at h <;> (try split at h) <;> cases h)
+
 end Gallia.LossSys
